@@ -114,3 +114,23 @@ Definition bad_attempt_R : attempt (T:=R) :=
      a_cand := 1/100; a_limited := false |}.
 Lemma contract_satisfiable : atts_ok (Some (1/10)) None (1/10) [bad_attempt_R] /\ 0 < 1/10.
 Proof. simpl. unfold att_ok; simpl. repeat split; intros; try discriminate; auto; lra. Qed.
+
+(** the two norms are not interchangeable: a state accepted in the RMS norm can violate the tolerance in the infinity
+    norm the user asked for (one of several constraint equations carries the whole error) -- so a projection judged in
+    the wrong norm does not establish the contract (exact rationals) *)
+Lemma rms_within_does_not_give_inf_within :
+  within_tol QOps false [(3#2)%Q; 0%Q; 0%Q; 0%Q] 1%Q = true /\ within_tol QOps true [(3#2)%Q; 0%Q; 0%Q; 0%Q] 1%Q = false.
+Proof. split; vm_compute; reflexivity. Qed.
+
+(** ... while the infinity norm is the stronger requirement (over R, tol >= 0) *)
+Lemma inf_within_gives_rms_within errs tol : 0 <= tol -> within_tol ROps true errs tol = true -> within_tol ROps false errs tol = true.
+Proof.
+  intros Ht. unfold within_tol, within_inf, within_rms. intros H. apply Rleb_true.
+  induction errs as [|e tl IH].
+  - simpl. nra.
+  - simpl in H. apply andb_prop in H. destruct H as [H1 H2]. apply Rleb_true in H1. specialize (IH H2).
+    change (length (e :: tl)) with (S (length tl)). rewrite Nat2Z.inj_succ, succ_IZR. simpl sumsq. simpl nmul in *. simpl nadd. simpl nofZ in *.
+    assert (A: e * e <= tol * tol).
+    { simpl nabs in H1. unfold Rabs in H1. destruct (Rcase_abs e); nra. }
+    nra.
+Qed.
